@@ -542,6 +542,10 @@ powerpc_load_constant (OrcCompiler *p, int i, int reg)
 
   p->constants[i].is_long = TRUE;
   if (p->constants[i].label == 0) {
+    if (p->n_labels >= ORC_N_LABELS) {
+      orc_compiler_error (p, "too many labels");
+      return;
+    }
     p->constants[i].label = orc_compiler_label_new(p);
   }
 
